@@ -101,6 +101,29 @@ def run(ctx, out):
                 'unsupported annotations that must fail at build time with TypeError/UnsupportedAnnotation. '
                 'Non-trivial = non-leaf type; distinct by (type term, value).')
     convprop.run(ctx, out, PROP, monitor, cfg={'weights': {'tagged': 1.6, 'cond': 1.8, 'dict': 1.8, 'class': 2.0, 'enum': 1.0, 'std': 2.5}, 'enum_tuple': True})
+    # ints beyond the interpreter's int -> str digit limit (sys.get_int_max_str_digits(), 4300 by default) are interchange data too
+    import sys
+    import typing as _t
+    import pane
+    lim = sys.get_int_max_str_digits() if hasattr(sys, 'get_int_max_str_digits') else 0
+    if lim:
+        big = 10 ** (lim + 100)
+        probes = [('mapping key', _t.Dict[int, int], {big: 'x'}), ('mapping value', _t.Dict[str, int], {'a': 'x', 'b': big}),
+                  ('list element', _t.List[str], [big]), ('scalar', str, big), ('float target', float, big), ('accepted', int, big),
+                  ('dataclass field', None, {'x': big})]
+
+        class _Big(pane.PaneBase):
+            x: str
+        for label, ty, v in probes:
+            out.evaluations += 1
+            try:
+                pane.from_data(v, ty if ty is not None else _Big)
+            except pane.ConvertError:
+                pass
+            except Exception as e:
+                out.violation(f'C04:int-beyond-str-digit-limit:{label}:{type(e).__name__}',
+                              f'from_data of an int of {lim + 101} digits ({label}, target {ty!r}) raised {type(e).__name__} instead of ConvertError',
+                              {'value': f'10 ** {lim + 100}', 'position': label, 'type': repr(ty)})
     n = 0
     for label, ty in unsupported_types():
         n += 1
